@@ -29,6 +29,43 @@ func init() {
 	})
 }
 
+// shimLockSpec: which lock mode each kind of access to the shim server needs.
+func shimLockSpec(m *shimModel) lockSpec {
+	return lockSpec{
+		Owner: m.Server,
+		Mutex: m.fMu,
+		Guard: map[string]int{m.fCerts: lkR, m.fCache: lkR, m.fLocked: lkR},
+		CallRW: map[string]int{
+			m.fAgent: lkR, // calls on the underlying agent: >= read lock
+			m.fConn:  lkW, // raw I/O on the shared connection: write lock
+		},
+	}
+}
+
+// shimRawRelayExclusive: the lock-set obligations that concern the raw connection and the underlying agent's
+// extension call (what the relay operations use), reported under the given rule of another property.
+func shimRawRelayExclusive(c *Ctx, m *shimModel, rule string) {
+	tmp := newCtx(c.w, c.Prop, c.Tier)
+	spec := shimLockSpec(m)
+	// a relayed request and its response must not interleave with another relay: calls on the underlying agent made
+	// by the relay operations need the exclusive lock too
+	la := newLockAnalysis(c.w, c.w.Pkg(shimPkg), spec)
+	la.run(tmp, "R1")
+	n := 0
+	for _, o := range tmp.Obs {
+		if o.Rule != "R1.lockset" || !strings.Contains(o.Key, " on "+m.fConn) {
+			continue
+		}
+		n++
+		construct := o.Key
+		if i := strings.Index(construct, "|"); i >= 0 {
+			construct = construct[i+1:]
+		}
+		c.add(rule, construct, o.Pos, o.Status, o.Detail, true)
+	}
+	c.Floor(rule, n, 2, "lock obligations on the raw connection")
+}
+
 func runC11(c *Ctx) {
 	w := c.w
 	m := resolveShim(w)
@@ -38,16 +75,7 @@ func runC11(c *Ctx) {
 	if m.Server == nil || len(m.problems) > 0 {
 		return
 	}
-	spec := lockSpec{
-		Owner: m.Server,
-		Mutex: m.fMu,
-		Guard: map[string]int{m.fCerts: lkR, m.fCache: lkR, m.fLocked: lkR},
-		CallRW: map[string]int{
-			m.fAgent: lkR, // calls on the underlying agent: >= read lock
-			m.fConn:  lkW, // raw I/O on the shared connection: write lock
-		},
-	}
-	la := newLockAnalysis(w, w.Pkg(shimPkg), spec)
+	la := newLockAnalysis(w, w.Pkg(shimPkg), shimLockSpec(m))
 	la.run(c, "R1")
 	c.Extra["lock_obligations_shim"] = la.NObl
 	c.Floor("R1.lockset", la.NObl, 60, "lock obligations in the shim package")
